@@ -14,7 +14,7 @@ for f in sorted(glob.glob('/verif/harness/props/c[0-9]*.py')):
             print(ob['name'], 'ok' if ob['ok'] else 'FAILED: ' + ob['detail'])
 PY
 sh tools/mkproject.sh
-timeout 3000 make -C coq -j16 2>&1 | grep -v '^make\|^COQDEP\|Closed under' | tail -40
+timeout 3000 make -k -C coq -j16 2>&1 | grep -v '^make\|^COQDEP\|Closed under' | tail -40
 # fail if any target is missing
 missing=0
 for v in $(grep '\.v$' coq/_CoqProject); do [ -f "coq/${v}o" ] || { echo "NOT BUILT: $v"; missing=1; }; done
